@@ -6,6 +6,7 @@ import (
 	"math"
 	"math/bits"
 	"regexp"
+	"regexp/syntax"
 	"sort"
 	"strconv"
 	"strings"
@@ -198,6 +199,9 @@ func (e *modelEnv) synthStr(id int64) string {
 	cands := []string{tag, "x" + tag, tag + "x", "X" + tag, "0" + tag, " " + tag}
 	for _, r := range reqs {
 		cands = append(cands, r.re.String()+tag, tag+r.re.String())
+		if sm, ok := regexSample(r.re.String()); ok {
+			cands = append(cands, sm+tag, tag+sm, sm)
+		}
 	}
 	out := tag
 	for _, c := range cands {
@@ -646,4 +650,55 @@ func (e *modelEnv) renderGuarded(v Value) (r string, ok bool) {
 		}
 	}()
 	return e.render(v), true
+}
+
+// regexSample returns one string matched by the pattern (built from its syntax
+// tree: literals as they are, the first alternative, one repetition of `+`,
+// none of `*` and `?`, the first member of a class).
+func regexSample(pat string) (string, bool) {
+	re, err := syntax.Parse(pat, syntax.Perl)
+	if err != nil {
+		return "", false
+	}
+	var sb strings.Builder
+	var walk func(r *syntax.Regexp) bool
+	walk = func(r *syntax.Regexp) bool {
+		switch r.Op {
+		case syntax.OpLiteral:
+			for _, c := range r.Rune {
+				sb.WriteRune(c)
+			}
+		case syntax.OpConcat:
+			for _, s := range r.Sub {
+				if !walk(s) {
+					return false
+				}
+			}
+		case syntax.OpCapture, syntax.OpPlus:
+			return walk(r.Sub[0])
+		case syntax.OpRepeat:
+			for i := 0; i < r.Min; i++ {
+				if !walk(r.Sub[0]) {
+					return false
+				}
+			}
+		case syntax.OpAlternate:
+			return walk(r.Sub[0])
+		case syntax.OpStar, syntax.OpQuest, syntax.OpEmptyMatch, syntax.OpBeginLine, syntax.OpEndLine, syntax.OpBeginText, syntax.OpEndText:
+		case syntax.OpAnyChar, syntax.OpAnyCharNotNL:
+			sb.WriteByte('x')
+		case syntax.OpCharClass:
+			if len(r.Rune) == 0 {
+				return false
+			}
+			sb.WriteRune(r.Rune[0])
+		default:
+			return false
+		}
+		return true
+	}
+	if !walk(re) {
+		return "", false
+	}
+	return sb.String(), true
 }
